@@ -91,6 +91,15 @@ CGet(c, k) ==
   /\ IF Readable(c, k) THEN UNCHANGED sv /\ last' = a @@ [out |-> "ok", val |-> Lookup(c, k)]
      ELSE Fail(a, "KeyError")
 
+(* collection.flush() inside a session: everything queued is appended now (nothing to do for a reader) *)
+CFlush(c) ==
+  LET a == [act |-> "cflush", c |-> c] IN
+  /\ cs[c].made /\ cs[c].st # "idle"
+  /\ file' = [file EXCEPT !.recs = FlushRecs(cs[c].queue, @)]
+  /\ cs' = [cs EXCEPT ![c].queue = <<>>, ![c].toc = @ \cup QKeys(cs[c].queue), ![c].n = Len(file.recs) + Len(cs[c].queue),
+                      ![c].used = 0]
+  /\ Note(a, "ok")
+
 End(c) ==
   LET a == [act |-> "end", c |-> c] IN
   /\ cs[c].st # "idle"
@@ -104,7 +113,7 @@ End(c) ==
 
 Next == \E c \in Coll :
           \/ \E hd \in Hdr : Make(c, hd)
-          \/ Begin(c, "a") \/ Begin(c, "r") \/ End(c)
+          \/ Begin(c, "a") \/ Begin(c, "r") \/ End(c) \/ CFlush(c)
           \/ \E k \in Key : CGet(c, k) \/ \E v \in Val : CPut(c, k, v)
 
 Spec == Init /\ [][Next]_vars
